@@ -1,6 +1,6 @@
 """C10 - cw4-stake: stakes are fully backed, weight follows stake, exit only after delay."""
 from ..engine import show, OPTION
-from ..idioms import dispatch, entry_points, loaded_from, nf, walk, response_entries, cell_delta, field_of, NF
+from ..idioms import dispatch, entry_points, loaded_from, nf, walk, response_entries, cell_delta, field_of, NF, decided_ints
 from .cw4common import SENDER, BLOCK, HEIGHT, items
 
 ID = "C10"
@@ -140,7 +140,7 @@ def check_bond(ctx, p, key, variant, sw, cl, cfg):
     prob = None
     funds = ("field", ("param", "info"), "funds")
     if variant == "Bond":
-        coin0 = ("call", "<std::vec::Vec as std::ops::Index>::index", (funds, ("lit", 0)))
+        coin0 = ("index", funds, ("lit", 0))
         want = {("field", coin0, "amount"): 1}
         if kind != ["Native"]:
             prob = "native funds accepted while the configured stake token is %s" % kind
@@ -149,7 +149,7 @@ def check_bond(ctx, p, key, variant, sw, cl, cfg):
         elif d.nf.atoms != want or d.nf.const:
             prob = "stake raised by %s, not by the single attached coin's amount" % d.nf.show()
         else:
-            one = any(c[0] == ("call", "len", (funds,)) and c[1] == ("=", 1) for c in p.conds)
+            one = 1 in decided_ints(p.conds, ("call", "len", (funds,)))
             den = any(c[0][0] == "cmp" and c[0][1] == "eq" and c[1] is True and
                       set((c[0][2], c[0][3])) == set((("field", coin0, "denom"), ("vfield", ("field", cfg, "denom"), "Native", "0"))) for c in p.conds)
             if not (one and den):
